@@ -413,6 +413,8 @@ def run(ctx: Ctx):
 
     n_writes = 0
     for led in LEDGERS:
+        if not heap_writes(ctx, book, led):
+            raise AnchorMissing(f"ResourceScenario.book (helpers inlined) has no write to the ledger '{led}'")
         for atoms, node, tgt in heap_writes(ctx, book, led):
             n_writes += 1
             cl = facts.holds(node, guard_lit)
@@ -582,7 +584,7 @@ def run(ctx: Ctx):
     ctx.floor("R01.9", 1)
     book_effects_rule(ctx, "R01.10", ("total", "record"))
     ctx.floor("R01.10", 2)
-    ctx.floor("R01.1", 5)
+    ctx.floor("R01.1", 4)      # one write per ledger (checked by name above) and one caller
     ctx.floor("R01.2", 7)
     ctx.floor("R01.3", 2)
     ctx.floor("R01.4", 1)
